@@ -69,6 +69,29 @@ func C13(r *core.Run) int {
 		[]byte("openapi: \"3.0.3\"\ninfo:\n  title: \"a `b` c\"\n  version: '1'\npaths: {}\n"),
 		[]byte("openapi: \"3.0.3\"\r\ninfo:\r\n  title: t\r\n  version: '1'\r\npaths: {}"),
 		[]byte("{\"openapi\":\"3.0.3\",\"info\":{\"title\":\"100% \\\\ back\",\"version\":\"1\"},\"paths\":{}}"))
+	// long files: whatever the generator does to long literals (wrapping,
+	// chunking, switching strategy) must not depend on where a rune or an
+	// escape sequence happens to fall; the fillers are dense in runes that
+	// strconv.Quote writes as multi-character escapes, in back quotes, and in
+	// multi-byte UTF-8, so that every cut column lies inside one of them
+	fillers := []string{"abcdefghij", "\u00a0", "\u2028\u200b", "\x01\x7f", "`", "\"\\", "é✓𝄞", "mid\ufeffbom "}
+	for fi, f := range fillers {
+		for si, size := range []int{1000, 2040, 2048, 2060, 4096, 70000} {
+			if size > 5000 && fi%3 != 0 {
+				continue
+			}
+			body := strings.Repeat(f, size/len(f)+1)
+			js, _ := json.Marshal(body) // a JSON string holding the filler
+			one := `{"openapi":"3.0.3","info":{"title":` + string(js) + `,"version":"1"},"paths":{}}`
+			contents = append(contents, []byte(one))
+			if si%2 == 0 {
+				contents = append(contents, []byte("openapi: \"3.0.3\"\r\ninfo:\r\n  title: "+string(js)+"\r\n  version: '1'\r\npaths: {}\r\n"))
+				// raw UTF-8 instead of JSON escapes, multi-line (raw-string strategy)
+				contents = append(contents, []byte("openapi: \"3.0.3\"\ninfo:\n  title: '"+strings.ReplaceAll(body, "'", "''")+"'\n  version: '1'\npaths: {}\n"))
+				contents = append(contents, []byte(`{"openapi":"3.0.3","info":{"title":"`+strings.NewReplacer("\"", "\\\"", "\\", "\\\\", "\x01", "?", "\x7f", "?").Replace(body)+`","version":"1"},"paths":{}}`))
+			}
+		}
+	}
 	for _, c := range specgen.UpstreamCases(core.RepoDir()) {
 		contents = append(contents, c.Raw)
 	}
